@@ -647,3 +647,63 @@ def single_decoder(ctx):
                               'peak = estimate + one decoder at every properties reset' % fld)
     if n == 0:
         ctx.anchor_missing('a reader method that builds an LZMADecoder into a field of self')
+
+
+@rule('EST-ARG-TWIN', ['C17'], floor=2)
+def est_arg_twin(ctx):
+    """ESTIMATE-TWIN compares, per type, what the constructor allocates with what the estimator promises - as functions
+    of the type's OWN parameters. Between types the figures are only comparable if constructor and estimator hand the
+    same thing down: where `T::new` builds a `U` with `U::new(a..)` and T's estimator calls U's estimator with `(b..)`,
+    the arguments for equally named parameters of the two U functions are the same expression of equally named
+    parameters of the two T functions. `HC4::new` sizing its hash tables from `dict_size + 1` while
+    `HC4::get_mem_usage` asks for `Hash234::get_mem_usage(dict_size)` doubles the 4-byte hash table for every
+    power-of-two dictionary, and both per-type comparisons still hold."""
+    from lzlint.intervals import _strip
+    F = ctx.facts
+
+    def params(f):
+        return [d['name'] for d in (f.d.get('debug') or []) if not d['place']['p'] and 1 <= d['place']['l'] <= f.arg_count]
+
+    def estimators(adt):
+        return [f for f in F.fns if f.self_adt == adt and f.kind != 'closure' and 'mem' in f.name and 'u32' in str(f.d.get('output'))
+                and not (f.arg_count >= 1 and f.locals[1].get('name') == 'self')]
+
+    def ctors(adt):
+        return [f for f in F.fns if f.self_adt == adt and f.kind != 'closure' and f.name == 'new']
+
+    n = 0
+    for adt in sorted({f.self_adt for f in F.fns if f.self_adt}):
+        es, cs = estimators(adt), ctors(adt)
+        if not es or not cs:
+            continue
+        for e in es:
+            for c in cs:
+                pe, pc = Prov(e), Prov(c)
+                # sub-objects: calls of U::new in the constructor / of U's estimator in the estimator
+                subs_c = {}
+                for bi, t, cal in c.calls():
+                    for g in F.resolve_callee(cal):
+                        if g.self_adt and g.self_adt != adt and g.name == 'new' and estimators(g.self_adt):
+                            subs_c[g.self_adt] = (bi, t, g)
+                subs_e = {}
+                for bi, t, cal in e.calls():
+                    for g in F.resolve_callee(cal):
+                        if g.self_adt and g.self_adt != adt and g in estimators(g.self_adt):
+                            subs_e[g.self_adt] = (bi, t, g)
+                for U in sorted(set(subs_c) & set(subs_e)):
+                    bc, tc, gc = subs_c[U]
+                    be, te, ge = subs_e[U]
+                    pnc, pne = params(gc), params(ge)
+                    for name in [x for x in pnc if x in pne]:
+                        ac = _strip(pc.operand(tc['args'][pnc.index(name)], 0, '%d:T' % bc))
+                        ae = _strip(pe.operand(te['args'][pne.index(name)], 0, '%d:T' % be))
+                        n += 1
+                        key = '%s~%s:%s:%s' % (c.key, e.key, last_seg(U), name)
+                        if expr_str(ac) == expr_str(ae):
+                            ctx.ok(key, c.loc(bc), 'both hand `%s` down as %s' % (expr_str(ac)[:50], name))
+                        else:
+                            ctx.violation(key, c.loc(bc), 'the constructor builds its %s with %s = %s, the estimator asks %s for %s = %s: the estimate is '
+                                          'for a different object than the one that is allocated' % (
+                                              last_seg(U), name, expr_str(ac)[:60], ge.key, name, expr_str(ae)[:60]))
+    if n == 0:
+        ctx.anchor_missing('constructor/estimator pairs that build a separately estimated sub-object')
